@@ -227,4 +227,147 @@ theorem x_coordinatewise (k : Nat) (x : Array X3) :
   simp only [Option.map_id_fun, id_eq] at h1 h2 h3 h4
   exact ⟨h1, h2, h3, h4⟩
 
+/-! ### canonicity of the outputs -/
+
+/-- all entries canonical -/
+def Canon (x : Array Nat) : Prop := ∀ i (h : i < x.size), x[i] < P
+
+theorem stage_canon (m : Nat) (tw : Array Nat) (x : Array Nat) : Canon (TF.Model.Ntt.stage bOps m tw x) := by
+  intro i h
+  simp only [TF.Model.Ntt.stage, Array.getElem_ofFn, bOps]
+  split <;> exact Nat.mod_lt _ P_pos
+
+theorem stagesLoop_canon (omega n : Nat) : ∀ f m (x : Array Nat), (0 < f ∨ Canon x) → Canon (stagesLoop bOps omega n f m x) := by
+  intro f
+  induction f with
+  | zero => intro m x h; rcases h with h | h; · omega
+            · exact h
+  | succ f ih => intro m x _; rw [stagesLoop]; exact ih _ _ (Or.inr (stage_canon _ _ _))
+
+theorem stageNoswap_canon (t : Nat) (z : Array Nat) (x : Array Nat) : Canon (stageNoswap bOps t z x) := by
+  intro i h
+  simp only [stageNoswap, Array.getElem_ofFn, bOps]
+  split <;> exact Nat.mod_lt _ P_pos
+
+theorem noswapLoop_canon (z : Array Nat) (n : Nat) : ∀ f m t (x : Array Nat), Canon x → Canon (noswapLoop bOps z n f m t x) := by
+  intro f
+  induction f with
+  | zero => intro m t x h; exact h
+  | succ f ih =>
+    intro m t x h
+    rw [noswapLoop]
+    split
+    · exact ih _ _ _ (stageNoswap_canon _ _ _)
+    · exact h
+
+theorem swapLoop_canon (log : Nat) : ∀ fuel k (a b : Array Nat), Canon a → swapLoop log fuel k a = some b → Canon b := by
+  intro fuel
+  induction fuel with
+  | zero => intro k a b h hb; simp only [swapLoop, Option.some.injEq] at hb; subst hb; exact h
+  | succ f ih =>
+    intro k a b h hb
+    rw [swapLoop] at hb
+    split at hb
+    · split at hb
+      · rename_i hlt hbound
+        refine ih _ _ _ ?_ hb
+        intro i hi
+        rw [Array.getElem_swap]
+        split
+        · exact h _ _
+        · split <;> exact h _ _
+      · cases hb
+    · exact ih _ _ _ h hb
+
+theorem ntt_some_form {σ α : Type} (ops : Ops σ α) (root : Nat → Option σ) (x y : Array α)
+    (h : ntt ops root x = some y) : ∃ ω log, nttUnchecked ops x ω log = some y := by
+  unfold ntt at h
+  by_cases h1 : 2^32 ≤ x.size
+  · rw [if_pos h1] at h; cases h
+  · rw [if_neg h1] at h
+    by_cases h2 : (!(x.size == 0 || TF.isPow2 x.size)) = true
+    · rw [if_pos h2] at h; cases h
+    · rw [if_neg h2] at h
+      cases hr : root x.size with
+      | none => simp only [hr] at h; cases h
+      | some w => simp only [hr] at h; exact ⟨w, _, h⟩
+
+theorem intt_some_form {σ α : Type} (ops : Ops σ α) (root : Nat → Option σ) (x y : Array α)
+    (h : intt ops root x = some y) : ∃ (c : σ) (z : Array α), y = z.map (ops.scale c) := by
+  unfold intt at h
+  by_cases h1 : 2^32 ≤ x.size
+  · rw [if_pos h1] at h; cases h
+  · rw [if_neg h1] at h
+    by_cases h2 : (!(x.size == 0 || TF.isPow2 x.size)) = true
+    · rw [if_pos h2] at h; cases h
+    · rw [if_neg h2] at h
+      cases hr : root x.size with
+      | none => simp only [hr] at h; cases h
+      | some w =>
+        simp only [hr] at h
+        cases hi : ops.sinv w with
+        | none => simp only [hi] at h; cases h
+        | some wi =>
+          simp only [hi] at h
+          split at h
+          · cases h
+          · simp only [Option.some.injEq] at h
+            exact ⟨_, _, h.symm⟩
+
+/-- on canonical input every transform of the base-field instance returns canonical values -/
+theorem transforms_canon (x : Array Nat) (hx : Canon x) :
+    (∀ y, ntt bOps primitiveRoot x = some y → Canon y) ∧
+    (∀ y, intt bOps primitiveRoot x = some y → Canon y) ∧
+    (∀ y, nttNoswap bOps primitiveRoot x = some y → Canon y) ∧
+    (∀ y, inttNoswap bOps primitiveRoot x = some y → Canon y) ∧
+    (∀ y, bitreverseOrder x = some y → Canon y) ∧
+    (∀ y, unscale bOps x = some y → Canon y) := by
+  refine ⟨?_, ?_, ?_, ?_, ?_, ?_⟩
+  · intro y hy
+    obtain ⟨w, log, h⟩ := ntt_some_form _ _ _ _ hy
+    simp only [nttUnchecked, Option.map_eq_some_iff] at h
+    obtain ⟨b, hb, rfl⟩ := h
+    exact stagesLoop_canon _ _ _ _ _ (Or.inr (swapLoop_canon _ _ _ _ _ hx hb))
+  · intro y hy
+    obtain ⟨c, z, rfl⟩ := intt_some_form _ _ _ _ hy
+    intro i h
+    simp only [Array.getElem_map, bOps]
+    exact Nat.mod_lt _ P_pos
+  · intro y hy
+    unfold nttNoswap at hy
+    cases hr : primitiveRoot x.size with
+    | none => simp only [hr] at hy; cases hy
+    | some w =>
+      simp only [hr] at hy
+      cases hz : powersBitrev bOps w x.size (ceilLog2 x.size) with
+      | none => simp only [hz] at hy; cases hy
+      | some z =>
+        simp only [hz, Option.some.injEq] at hy
+        subst hy
+        exact noswapLoop_canon _ _ _ _ _ _ hx
+  · intro y hy
+    unfold inttNoswap at hy
+    cases hr : primitiveRoot x.size with
+    | none => simp only [hr] at hy; cases hy
+    | some w =>
+      simp only [hr] at hy
+      cases hi : bOps.sinv w with
+      | none => simp only [hi] at hy; cases hy
+      | some wi =>
+        simp only [hi, Option.some.injEq] at hy
+        subst hy
+        exact stagesLoop_canon _ _ _ _ _ (Or.inr hx)
+  · intro y hy
+    exact swapLoop_canon _ _ _ _ _ hx hy
+  · intro y hy
+    unfold unscale at hy
+    cases hi : bOps.sinv (bOps.sofNat x.size) with
+    | none => simp only [hi] at hy; cases hy
+    | some c =>
+      simp only [hi, Option.some.injEq] at hy
+      subst hy
+      intro i h
+      simp only [Array.getElem_map, bOps]
+      exact Nat.mod_lt _ P_pos
+
 end TF.NttProofs
